@@ -11,7 +11,7 @@ import vlib
 LEVEL_TEXT = ('Lean 4 theorems, for all shapes/targets/parities: pad (2-D and cubes) is the restriction of the centred zero-extended '
               'array (origin sample floor(m/2) -> floor(S/2), every copied sample keeps its coordinate), its slices are in bounds, '
               'pad-then-crop is the identity; subarray/boundary/boundary_slice/slice_offset address the stated index sets; rebin '
-              'preserves the sum; the centroid of an array that is half-turn symmetric about a sample is that sample (also for any ring of weights: antialiased values), hence the centroid of a drawn circle / rectangle / hexagon with zero shift that is clear of the border is the origin sample floor(n/2) (centroid_of_drawn_shapes), the centroid of an indicator '
+              'preserves the sum; the centroid of an array that is half-turn symmetric about a sample is that sample (also for any ring of weights: antialiased values), hence the centroid of a drawn circle / rectangle / hexagon with zero shift is the origin sample floor(n/2) UNDER the hypotheses of the theorem: row 0 of the image is zero when the row count is even and column 0 is zero when the column count is even (the mirror image of index 0 on an even axis falls outside the array) (centroid_of_drawn_shapes), the centroid of an indicator '
               'set is its mean position; mesh coordinates translate under integer '
               'shifts and negate under the half-turn index map; circle/rectangle/hexagon values lie in [0,1], are binary without '
               'antialiasing, translate under integer shifts (also spider) and are half-turn symmetric and mirror symmetric about the origin ROW (hexagons in both orientations; the column mirror is their composition, not stated separately) — via the closure of their six '
@@ -40,7 +40,8 @@ RULE = ('cases: pad of 2-D arrays (all source/target sizes 1..9, every grow/shri
         'same-shape/identity case')
 TRUSTED = ['NumPy slicing, reshape(...).sum, np.any/np.where, np.clip/np.minimum semantics as modelled by hand in Model/Geometry.lean',
            'libm sqrt/sin/cos agree with NumPy to 1e-9 (drawn shapes are compared with the model run at Float)']
-UNPROVEN = ['hex_segments: equal segment area up to edge sampling (checked on the real code by the oracle only)']
+UNPROVEN = ['hex_segments: equal segment area up to edge sampling (checked on the real code by the oracle only)',
+            'util.window (named in the anchors) has NO theorem: its shape= / slice= / both / one-element behaviour is compared with pad / sub-array extraction on generated cases only']
 ASSUMPTIONS = ['shape parameters, shifts and radii are dyadic rationals of moderate size so that mesh coordinates are exact in float64',
                'non-overlap is judged on non-antialiased masks; seg_gap = 0 is the recorded known finding KF-C20-hex-gap0-shared-edge',
                'border clearance is stated for pad >= 2 (the default); pad < 2 is not claimed',
